@@ -58,11 +58,13 @@ type Ctx struct {
 	epochs     int
 	boxedVars  map[types.Object]bool
 	locks      []string
+	pcParent   map[string]string
+	pcPhi      map[string]string
 	interior   map[string]*Loc
 }
 
 func newCtx(w *World, key string) *Ctx {
-	c := &Ctx{W: w, FuncKey: key, declared: map[string]bool{}, anchorCnt: map[string]int{}, tags: map[string]int{}, strLits: map[string]string{}, specFnDone: map[string]bool{}}
+	c := &Ctx{W: w, FuncKey: key, declared: map[string]bool{}, anchorCnt: map[string]int{}, tags: map[string]int{}, strLits: map[string]string{}, specFnDone: map[string]bool{}, pcParent: map[string]string{}, pcPhi: map[string]string{}}
 	c.decls = append(c.decls,
 		"(declare-sort Str 0)",
 		"(declare-datatypes ((Slice 0)) (((mkSlice (s_base Int) (s_off Int) (s_len Int) (s_cap Int)))))",
@@ -445,6 +447,14 @@ func (o *Oblig) Query(withModel bool) string {
 	for _, a := range c.asserts[:o.NAssert] {
 		b.WriteString(a)
 		b.WriteByte('\n')
+	}
+	// path-condition constants on the single-parent chain above o.PC are certainly true: state their facts at top level
+	for pc := o.PC; pc != "" && pc != "true"; pc = c.pcParent[pc] {
+		if phi, ok := c.pcPhi[pc]; ok {
+			b.WriteString("(assert " + pc + ")\n(assert " + phi + ")\n")
+		} else {
+			break
+		}
 	}
 	b.WriteString("(assert " + o.PC + ")\n")
 	if !o.Vacuity {
